@@ -10,13 +10,13 @@ import (
 )
 
 const (
-	stIdle = iota            // no stream
-	stStreamIdle             // client stream open, nothing in flight
-	stRecvBlocked            // MsgRecv blocked
-	stSendParked             // MsgSend parked in the transport
-	stReaderInPut            // reader parked handing a message to a stream nobody reads
-	stReaderWaitsForStream   // reader parked in streamBuffer.Wait (packet for a future stream)
-	stNewStreamWaiting       // second NewClientStream waiting for the first stream to finish
+	stIdle                 = iota // no stream
+	stStreamIdle                  // client stream open, nothing in flight
+	stRecvBlocked                 // MsgRecv blocked
+	stSendParked                  // MsgSend parked in the transport
+	stReaderInPut                 // reader parked handing a message to a stream nobody reads
+	stReaderWaitsForStream        // reader parked in streamBuffer.Wait (packet for a future stream)
+	stNewStreamWaiting            // second NewClientStream waiting for the first stream to finish
 	numStates
 )
 
@@ -143,7 +143,6 @@ func VerifH_ServerCloseAfterBadMetadata() {
 	vrt.Assert(vrt.Unfinished() == 0, "no library goroutine is left behind")
 	vrt.Cover("server-close-end")
 }
-
 
 // VerifH_CloseAfterTermination: the manager has already begun terminating for another
 // reason (the peer went away, an active stream was hard-cancelled, a write failed) and the
